@@ -922,12 +922,23 @@ pub fn adopt(n: usize, name: &str) {
     if !st.active {
         return;
     }
-    let deadline = Instant::now() + Duration::from_secs(20);
+    // the thread to adopt is started by the code under test and checks in at its first operation; on a
+    // loaded machine that can take long: give up only when nothing has been runnable for a while
+    let t_start = Instant::now();
+    let me = unsafe { libc::syscall(libc::SYS_gettid) } as i64;
+    let mut idle_since: Option<Instant> = None;
     while st.pending.len() < n {
         let (g, to) = sched().cv.wait_timeout(st, Duration::from_millis(100)).unwrap_or_else(|e| e.into_inner());
         st = g;
-        if to.timed_out() && Instant::now() > deadline {
-            panic!("detsched: adopt timed out");
+        if to.timed_out() && t_start.elapsed() > Duration::from_secs(20) {
+            if any_other_thread_runnable(me) {
+                idle_since = None;
+            } else if idle_since.is_none() {
+                idle_since = Some(Instant::now());
+            }
+            if idle_since.map_or(false, |t| t.elapsed() > Duration::from_secs(10)) || t_start.elapsed() > Duration::from_secs(300) {
+                panic!("detsched: adopt timed out");
+            }
         }
     }
     for i in 0..n {
